@@ -2165,3 +2165,23 @@ def r16_15(rep):
               ("the exit for undefined internal functions is additionally conditioned on `%s`" % found[1][0][:80]) if found else
               "no early exit for a function with internal linkage and no definition: it is bound (and wrapped) although nothing defines it",
               b.loc(found[0]) if found else b.loc(b.root))
+
+
+@RULES.rule("R16.16", "the suffix of the wrapper symbols is the configured one, unless none was configured", floor=1)
+def r16_16(rep):
+    """Binding and wrapper both take the suffix from `BindgenContext::wrap_static_fns_suffix` (R16.2), so they always agree with each
+    other — but the C side is also compiled and linked by the user, who was told which suffix to expect.  The accessor returns the
+    option when it is set and the default otherwise; "hardening" it (`filter(is_valid_identifier)`: a suffix such as `2c` starts with a
+    digit and is silently replaced by `__extern`) makes the wrappers carry a suffix nobody asked for (seeded change)."""
+    prog = rep.prog
+    b = rep.need(prog.fn("ir::context::BindgenContext::wrap_static_fns_suffix"), "BindgenContext::wrap_static_fns_suffix")
+    tail = strip(b.root.get("tail") or b.root)
+    names = [x.get("name") for x in b.walk(tail) if x["k"] == "MCall"]
+    reads = any(x["k"] == "Field" and x.get("f") == "wrap_static_fns_suffix" for x in b.walk(tail))
+    allowed = {"unwrap_or", "as_deref", "as_ref", "map", "unwrap_or_else", "as_str", "map_or", "unwrap_or_default", "options"}
+    extra = [n_ for n_ in names if n_ not in allowed]
+    conds = [x for x in b.walk() if x["k"] in ("If", "Match")]
+    ok = reads and not extra and not conds
+    rep.check(ok, "suffix-is-the-option", "`options.wrap_static_fns_suffix` or the default" if ok else
+              "the configured suffix goes through `%s` before it is used: some values the user configured are replaced silently"
+              % (", ".join(extra) or "a condition"), b.loc(tail))
